@@ -2,7 +2,7 @@
 // LogServer::serve / process, LogServerClient::connect, CommandTask::run's stream selection are not under a Verus contract.
 // C20: after its stream header a listener prints header-introduced blocks only; per (stream, target, command) the blocks reassemble
 // to that task's output (newline-terminated text), and blocks appear only for what the listener's filters admit.
-// BOUND: 3 targets x 2 commands x 2 streams writing concurrently (40..120 lines each, with pauses; one stream with CR LF line ends, one with a 200 KB line), 8 filter combinations.
+// BOUND: 3 targets x 2 commands x 2 streams writing concurrently (40..120 lines each, with pauses; one stream with CR LF line ends, one with a 200 KB line), 9 filter combinations.
 use std::io::Read;
 use std::os::unix::fs::PermissionsExt;
 use std::process::{Command, Stdio};
@@ -118,9 +118,11 @@ fn vf_log_tail_blocks() {
     let combos: Vec<(bool, bool, Vec<&str>, Vec<&str>)> = vec![
         (true, false, vec![], vec![]), (false, true, vec![], vec![]), (true, true, vec![], vec![]), (true, false, vec!["t1"], vec![]),
         (false, true, vec![], vec!["emit"]), (true, true, vec!["t2", "t3"], vec!["other"]), (false, false, vec![], vec![]), (true, true, vec!["nosuch"], vec![]),
+        // a filter value that is the empty string (`-t "$UNSET"`) names no target: it admits nothing - it is not "no filter"
+        (true, true, vec![""], vec![]),
     ];
     // quick tier: 4 of the 8 filter combinations
-    let combos: Vec<(bool, bool, Vec<&str>, Vec<&str>)> = if std::env::var("VERIF_TIER").map(|t| t == "thorough").unwrap_or(false) { combos } else { combos.into_iter().enumerate().filter(|(i, _)| [2usize, 3, 5, 6].contains(i)).map(|(_, c)| c).collect() };
+    let combos: Vec<(bool, bool, Vec<&str>, Vec<&str>)> = if std::env::var("VERIF_TIER").map(|t| t == "thorough").unwrap_or(false) { combos } else { combos.into_iter().enumerate().filter(|(i, _)| [2usize, 3, 5, 8].contains(i)).map(|(_, c)| c).collect() };
     let mut seq = 0u64;
     for (so, se, ft, fc) in combos {
         checked += 1;
